@@ -354,6 +354,26 @@ def case_chains(B, cfg):
                 B.fact('posterior predictive of %s reads one joint raw row '
                        'of that individual' % _id, len(hit) == 1,
                        repr([T.show(a) for a in args]))
+            # pointwise log-likelihood of one individual's likelihood, read
+            # back from the hierarchical dataset with individual=<its ID>
+            for i_, _id in enumerate(uniq):
+                ll_i = H['lls'][i_]
+                try:
+                    pw = chi.compute_pointwise_loglikelihood(
+                        ll_i, ds, individual=_id)
+                except Exception as e:
+                    B.fact('no-exception:compute_pointwise_loglikelihood('
+                           'individual=%s)' % _id, False, repr(e))
+                    continue
+                for c in range(nc):
+                    for d in range(nd):
+                        vec = [chains[c, d, pos[(_id, names[j])]]
+                               for j in range(D)]
+                        ref = ll_i.compute_pointwise_ll(ps.arr(B, vec))
+                        for j in range(len(ref)):
+                            B.eq('pointwise log-likelihood of %s [chain %d, '
+                                 'draw %d, obs %d] from its own columns'
+                                 % (_id, c, d, j), pw.values[c][d][j], ref[j])
     else:
         ll = post.get_log_likelihood()
         pw = chi.compute_pointwise_loglikelihood(ll, ds)
